@@ -156,8 +156,15 @@ class RefGen:
             x = r.choice(["x", "y"])
             return x, f"(dyn {{{x}}})", None
         if k < 0.8:
-            a, b = self.tname(), self.tname()
-            return f'"{a}" if t else "{b}"', f"(cond {{t}} {name_sx(a)} {name_sx(b)})", None
+            # conditional name: each branch is a constant or a variable
+            def branch():
+                if r.random() < 0.6:
+                    n = self.tname()
+                    return f'"{n}"', f"(ic {name_sx(n)})"
+                x = r.choice(["x", "y"])
+                return x, f"(id {{{x}}})"
+            (sa, xa), (sb, xb) = branch(), branch()
+            return f"{sa} if t else {sb}", f"(cond {{t}} {xa} {xb})", None
         if k < 0.9:
             return str(r.randint(0, 9)), "(c other)", None
         # a constant tuple: only reachable through the AST (optimizer / extensions)
